@@ -366,13 +366,10 @@ _ALOG = []
 
 
 def _alog_dir():
+    # one scratch directory per execution, removed again in _alog_cleanup (pool workers do not run atexit handlers)
+    import tempfile
     if not _ALOG:
-        import atexit
-        import shutil
-        import tempfile
-        d = tempfile.mkdtemp(prefix="c10alog")
-        _ALOG.append(d)
-        atexit.register(shutil.rmtree, d, True)
+        _ALOG.append(tempfile.mkdtemp(prefix="c10alog"))
     return _ALOG[0]
 
 
@@ -386,6 +383,9 @@ def _alog_cleanup():
             h.close()
         except Exception:
             pass
+    import shutil
+    while _ALOG:
+        shutil.rmtree(_ALOG.pop(), ignore_errors=True)
 
 
 def scenario(params, ch):
